@@ -48,6 +48,8 @@ If(c, s)     == IF c THEN s ELSE {}
 (* current cycle (grave)                                                   *)
 (***************************************************************************)
 IsLeaf(sh) == sh.k \in {"TS", "TSS", "TSW"}
+IsDyn(sh)  == sh.k = "TSL" /\ "dyn" \in DOMAIN sh      \* dynamic list: grows to the largest index written (size sz)
+Min2(a, b) == IF a < b THEN a ELSE b
 
 RECURSIVE Fresh(_)
 Fresh(sh) ==
@@ -55,7 +57,8 @@ Fresh(sh) ==
       [] sh.k = "TSS" -> [ok |-> FALSE, v |-> {}, w |-> 0, inv |-> 0]
       [] sh.k = "TSW" -> [ok |-> FALSE, q |-> <<>>, w |-> 0, inv |-> 0]
       [] sh.k = "TSD" -> [ok |-> FALSE, ch |-> EmptyFn, grave |-> EmptyFn, pub |-> {}, w |-> 0, soft |-> 0]
-      [] OTHER        -> [ok |-> FALSE, ch |-> [i \in 1..NCh(sh) |-> Fresh(ChSh(sh, i))], w |-> 0, soft |-> 0, inv |-> 0]
+      [] OTHER        -> [ok |-> FALSE, ch |-> [i \in 1..NCh(sh) |-> Fresh(ChSh(sh, i))], w |-> 0, soft |-> 0, inv |-> 0,
+                          sz |-> IF IsDyn(sh) THEN 0 ELSE NCh(sh)]
 
 RECURSIVE ValOf(_, _)
 ValOf(sh, m) ==
@@ -125,7 +128,7 @@ ApplyAt(sh, st, path, op, t) ==
                                      !.w = IF wr THEN t ELSE @, !.soft = IF r.sf THEN t ELSE @],
                    wr |-> wr, sf |-> r.sf]
          ELSE LET r == ApplyAt(ChSh(sh, p + 1), st.ch[p + 1], Tail(path), op, t)
-              IN  [st |-> [st EXCEPT !.ch[p + 1] = r.st, !.ok = @ \/ r.wr, !.w = IF r.wr THEN t ELSE @, !.soft = IF r.sf THEN t ELSE @],
+              IN  [st |-> [st EXCEPT !.ch[p + 1] = r.st, !.ok = @ \/ r.wr, !.sz = IF @ < p + 1 THEN p + 1 ELSE @, !.w = IF r.wr THEN t ELSE @, !.soft = IF r.sf THEN t ELSE @],
                    wr |-> r.wr, sf |-> r.sf]
 
 RECURSIVE RunOps(_, _, _, _, _)
@@ -179,9 +182,10 @@ Cmp(sh, o, pre, cur, act, now, side, depth) ==
             \cup If(o.av = 0 /\ Len(cur.q) >= sh.min, {T("C05.window_not_valid_at_min_count")})
             \cup If(Em /\ o.dv # <<cur.q[Len(cur.q)]>>, {T("C05.window_delta_is_not_the_pushed_value")})
       [] fixed ->
-            LET n  == NCh(sh)
+            LET n  == Min2(NCh(sh), Len(o.ch))
                 cm == \E i \in 1..n : o.ch[i].m = 1
             IN  UNION {Cmp(ChSh(sh, i), o.ch[i], pre.ch[i], cur.ch[i], act, now, side, depth + 1) : i \in 1..n}
+                \cup If(Len(o.ch) # cur.sz \/ o.sz # cur.sz, {T("C05.list_size_is_not_the_net_effect_of_the_mutations")})
                 \cup If(cm /\ o.m = 0, {T("C04.parent_not_modified_with_child")})
                 \cup If(~cm /\ o.m = 1 /\ ~free, {T("C04.fixed_parent_modified_without_child")})
                 \cup If(~free /\ ToSet(o.mi) # {i - 1 : i \in {j \in 1..n : o.ch[j].m = 1 /\ o.ch[j].ok = 1}},
@@ -232,8 +236,8 @@ CmpPW(sh, p, w, cur, now, depth) ==
                                  both == DOMAIN fp \cap DOMAIN fw \cap DOMAIN cur.ch
                              IN  If(p.ks # w.ks, {T("keys")}) \cup If(p.a # w.a \/ p.r # w.r \/ p.mk # w.mk, {T("added_removed_modified")})
                                  \cup UNION {CmpPW(sh.el, fp[x], fw[x], cur.ch[x], now, depth + 1) : x \in both}
-          [] OTHER -> If(p.mi # w.mi, {T("modified_items")})
-                      \cup UNION {CmpPW(ChSh(sh, i), p.ch[i], w.ch[i], cur.ch[i], now, depth + 1) : i \in 1..NCh(sh)}
+          [] OTHER -> If(p.mi # w.mi, {T("modified_items")}) \cup If(Len(p.ch) # Len(w.ch), {T("size")})
+                      \cup UNION {CmpPW(ChSh(sh, i), p.ch[i], w.ch[i], cur.ch[i], now, depth + 1) : i \in 1..Min2(NCh(sh), Min2(Len(p.ch), Len(w.ch)))}
 
 (***************************************************************************)
 (* events                                                                  *)
